@@ -87,6 +87,7 @@ class C10(HistoryProperty):
 
     def gen_case(self, rng, tier):
         cfg = gen.swarm_cfg(rng, off=("shape_change",))
+        cfg["effect_params"] = rng.random() < 0.4  # effects that are Evaluatables reading options of their own
         spec = gen.gen_spec(rng, cfg)
         # bare combinators are targets too: a memoising dataset around them computes keys() for its fingerprint
         # during validate() and so hides a validate() that is weaker than keys()/evaluate()
@@ -105,6 +106,30 @@ class C10(HistoryProperty):
                     for p in rng.sample(leaves, rng.randint(1, len(leaves))):
                         U.del_path(o2, p)
                     ops.append(dict(op, o=o2, mut="subdict"))
+        eff_keys = [(n["id"], gen.node_by_id(spec, x)["key"]) for n in spec["nodes"] if n["k"] == "dataset" for x in n.get("effects_opt", [])
+                    if not gen.node_by_id(spec, x).get("default")]
+        if eff_keys and ops and rng.random() < 0.7:
+            # near-pair around an option that only an EFFECT reads: first a lone validate() with it, then the triple without it
+            import copy
+
+            ds, key = rng.choice(eff_keys)
+            base = copy.deepcopy(rng.choice(ops)["o"])
+            with_key = copy.deepcopy(base)
+            try:
+                U.set_path(with_key, key, rng.choice([1, "a"]))
+                U.del_path(base, key)
+                node = rng.choice([ds] + spec["roots"])
+                at = rng.randrange(len(ops) + 1)
+                ops.insert(at, {"op": "evaluate", "node": node, "o": with_key, "calls": rng.choice(["v", "v", "k", "vk"]), "mut": "effect-key"})
+                ops.insert(at + 1, {"op": "evaluate", "node": node, "o": base, "mut": "effect-key-removed"})
+            except (TypeError, AttributeError, KeyError):
+                pass
+        for op in ops:
+            if "calls" in op:
+                continue
+            # not every visit asks all three questions (a validate() alone leaves other traces than a full triple)
+            if rng.random() < 0.3:
+                op["calls"] = "".join(rng.sample("vke", rng.randint(1, 2)))
         partial = rng.random() < 0.35
         faults = []
         if partial:
@@ -121,11 +146,13 @@ class C10(HistoryProperty):
             # every op expands to three calls; faults are addressed by the expanded op index of the evaluate call
             w = World(spec)
             ok_seen = fail_seen = False
+            stash = None
             for i, op in enumerate(case["ops"]):
                 outs = {}
                 for world_kind in ("warm", "cold"):
                     world = w if world_kind == "warm" else w.twin(record=False)
-                    for letter in case["order"]:
+                    letters = op.get("calls") if (op.get("calls") and world_kind == "warm") else case["order"]
+                    for letter in letters:
                         kind = {"v": "validate", "k": "keys", "e": "evaluate"}[letter]
                         for f in case.get("faults", []):
                             if f[0] == i and kind == "evaluate":
@@ -143,6 +170,9 @@ class C10(HistoryProperty):
                                 break
                     if res.violations:
                         break
+                    if len(letters) < 3:
+                        res.bump("partial_visits")
+                        continue
                     v, k, e = (outs[(world_kind, x)] for x in ("validate", "keys", "evaluate"))
                     res.bump("triples")
                     fired_here = bool(world.fired)
@@ -152,8 +182,14 @@ class C10(HistoryProperty):
                     if not fired_here:
                         # total mode for this triple
                         if not (v.ok == k.ok == e.ok):
-                            res.violate("validate-keys-evaluate-disagree", op_index=i, world=world_kind, node=op["node"], o=op["o"],
-                                        validate=v.brief(), keys=k.brief(), evaluate=e.brief(), order=case["order"])
+                            viol = res.violate("validate-keys-evaluate-disagree", op_index=i, world=world_kind, node=op["node"], o=op["o"],
+                                               validate=v.brief(), keys=k.brief(), evaluate=e.brief(), order=case["order"])
+                            if self.signature(case, viol) == "effect-option-missing-keys-succeeds":
+                                # open known finding: remember one instance and go on with the history
+                                stash = stash or viol
+                                res.violations.clear()
+                                res.bump("known_effect_option_hits")
+                                continue
                             break
                         ok_seen = ok_seen or e.ok
                         fail_seen = fail_seen or not e.ok
@@ -166,6 +202,8 @@ class C10(HistoryProperty):
                         world.fired.clear()
                 if res.violations:
                     break
+            if stash is not None and not res.violations:
+                res.violations.append(stash)
             res.stats["events"] = w.log.seq
             res.digest = w.log.digest()
             res.seen("history", (spec, case["ops"], case.get("faults")))
@@ -175,6 +213,10 @@ class C10(HistoryProperty):
         return res
 
     def signature(self, case, violation):
+        d = violation.get("detail", {})
+        if (violation["kind"] == "validate-keys-evaluate-disagree" and d.get("keys", [""])[0] == "ok" and d.get("validate", [""])[0] == "err"
+                and d.get("evaluate", [""])[0] == "err" and any(n.get("effects_opt") for n in case["spec"]["nodes"] if n["k"] == "dataset")):
+            return "effect-option-missing-keys-succeeds"
         if gen.scalar_at_section_prefix(case["spec"], [op["o"] for op in case["ops"] if "o" in op]):
             return "scalar-at-section-prefix"
         return None
